@@ -7,7 +7,11 @@
 (*   (0-based) of each block with 0x42 before the test.  The accepted block IS   *)
 (*   the scalar: no masking, no reduction, no reuse.                             *)
 (* A source is (stream, fault): fault = <<>> or <<kind, at>>: reading the byte   *)
-(* at 0-based index >= at fails (error or EOF).                                  *)
+(* at 0-based index >= at fails (error or EOF).  HOW the source delivers its     *)
+(* bytes is not part of the abstract state: an io.Reader may return whole reads, *)
+(* short reads of any size, and a failure either together with the last bytes or *)
+(* on the following call - the outcome of an operation must be the same for all  *)
+(* of these delivery styles (the replayer runs each of them).                    *)
 EXTENDS Integers, Sequences, Bitwise
 BN == INSTANCE BigNat
 
